@@ -50,7 +50,12 @@ func c13Until(t time.Time) time.Duration { return t.Sub(c13Now()) }
 // arbitrary (not part of the claim).
 //
 //verif:stub time.Until files=backoff.go
-func c13UntilLogged(t time.Time) time.Duration { return time.Duration(vI64("logged-wait")) }
+func c13UntilLogged(t time.Time) time.Duration {
+	if c13Concurrent {
+		return 0 // the tape is read by the main goroutine only
+	}
+	return time.Duration(vI64("logged-wait"))
+}
 
 //verif:stub time.NewTimer files=*
 func c13NewTimer(d time.Duration) *time.Timer {
